@@ -96,6 +96,72 @@ impl<'a> Gen<'a> {
         }
     }
 
+    /// a one-line statement that triggers the given code
+    fn stmt_of(&mut self, code: &str) -> String {
+        let n = self.fresh();
+        match code {
+            "unused" => format!("local u{n} = 1"),
+            "deprecated" => "dep()".to_string(),
+            "missing-parameter" => "need2(1)".to_string(),
+            _ => format!("g{n}()"),
+        }
+    }
+
+    /// a line-level comment (any code) FOLLOWED by a block-level / file-level `disable` of code X, with diagnostics of
+    /// X before the line-level comment, between the two comments and after both; the line-level comment sits in the
+    /// same block, in a nested block or in an earlier sibling block
+    fn combo(&mut self, depth: usize) {
+        let indent = depth * 2;
+        let x = *self.rng.pick(&["undefined-global", "unused", "deprecated", "missing-parameter"]);
+        let list = match self.rng.below(4) {
+            0 => String::new(),
+            1 => format!(": {}, {}", self.rng.pick(CODE_NAMES), x),
+            _ => format!(": {x}"),
+        };
+        let line_codes = self.code_list();
+        let before = self.stmt_of(x);
+        self.push(indent, &before);
+        let place = self.rng.below(4);
+        let carrier = self.stmt();
+        let emit_line_level = |g: &mut Gen, ind: usize| {
+            if g.rng.chance(1, 2) {
+                let c = format!("{}@diagnostic disable-next-line{}", g.dashes(), line_codes);
+                g.push(ind, &c);
+                for l in &carrier {
+                    g.push(ind, l);
+                }
+            } else {
+                let n = g.fresh();
+                g.push(ind, &format!("local _c{n} = 1 ---@diagnostic disable-line{line_codes}"));
+            }
+        };
+        match place {
+            0 | 1 => emit_line_level(self, indent),
+            2 => {
+                self.push(indent, "do");
+                emit_line_level(self, indent + 2);
+                self.push(indent, "end");
+            }
+            _ => {
+                let n = self.fresh();
+                self.push(indent, &format!("if g{n}c then"));
+                let inner = self.stmt_of(x);
+                self.push(indent + 2, &inner);
+                emit_line_level(self, indent + 2);
+                self.push(indent, "else");
+                let inner = self.stmt_of(x);
+                self.push(indent + 2, &inner);
+                self.push(indent, "end");
+            }
+        }
+        let between = self.stmt_of(x);
+        self.push(indent, &between);
+        let c = format!("{}@diagnostic disable{}", self.dashes(), list);
+        self.push(indent, &c);
+        let after = self.stmt_of(x);
+        self.push(indent, &after);
+    }
+
     fn push(&mut self, indent: usize, s: &str) {
         // sometimes no indentation at all, so that nested statements start at column 0
         let ind = if self.rng.chance(1, 4) { 0 } else { indent };
@@ -158,6 +224,7 @@ impl<'a> Gen<'a> {
                     }
                 }
                 14 => self.push(indent, "-- note"),
+                15 => self.combo(depth),
                 _ => {
                     if depth >= 3 {
                         continue;
@@ -223,6 +290,18 @@ fn gen_program(rng: &mut Rng) -> (String, Eol) {
         1 => {
             let c = format!("---@diagnostic disable-next-line{}", g.code_list());
             g.lines.push(c)
+        }
+        _ => {}
+    }
+    match g.rng.below(10) {
+        0 => g.combo(0),
+        1 => {
+            let n = g.fresh();
+            let head = *g.rng.pick(&["do", "local function _cf()", "for _ = 1, 2 do"]);
+            g.lines.push(head.to_string());
+            g.combo(1);
+            g.lines.push("end".to_string());
+            g.lines.push(format!("g{n}()"));
         }
         _ => {}
     }
@@ -439,11 +518,13 @@ fn classify(t: &TagInfo, d: &Diag, ln: &Lines, enabled: &BTreeSet<String>) -> (V
                 if enabled.contains(&d.code) {
                     return (Verdict::DontCare, "");
                 }
-                return if ds >= ce { (Verdict::Must, "file-miss") } else { (Verdict::DontCare, "") };
+                // "`disable: X` suppresses it … within the enclosing block (the whole file at top level)"
+                return (Verdict::Must, "file-miss");
             }
             let bs = ln.pos[b.0 as usize];
             let be = ln.pos[b.1 as usize];
-            if ds >= ce && de <= be && (!empty || ds < be) {
+            let _ = ce;
+            if ds >= bs && de <= be && (!empty || ds < be) {
                 (Verdict::Must, "block-miss")
             } else if (if empty { ds < bs } else { de <= bs }) || (if empty { ds > be } else { ds >= be }) {
                 (Verdict::NoEffect, "block-leak")
@@ -470,6 +551,8 @@ struct Stats {
     multi_line_comments: usize,
     eol: [usize; 4],
     nested_block_tags: usize,
+    line_then_disable: usize,
+    must_before_comment: usize,
     by_code: BTreeMap<String, usize>,
 }
 
@@ -524,6 +607,9 @@ fn search_one(ws: &mut Ws, text: &str, st: &mut Stats, out: &mut Vec<Value>) {
             st.multi_line_comments += 1;
         }
     }
+    if tags.iter().enumerate().any(|(i, t)| (t.kind == 1 || t.kind == 2) && tags[i + 1..].iter().any(|u| u.kind == 0)) {
+        st.line_then_disable += 1;
+    }
     let mut c1: BTreeMap<&Diag, usize> = BTreeMap::new();
     for d in &d1 {
         *c1.entry(d).or_default() += 1;
@@ -544,7 +630,12 @@ fn search_one(ws: &mut Ws, text: &str, st: &mut Stats, out: &mut Vec<Value>) {
         for t in &tags {
             let (v, sig) = classify(t, d, &ln, &enabled);
             match v {
-                Verdict::Must => must = Some(sig),
+                Verdict::Must => {
+                    must = Some(sig);
+                    if t.kind == 0 && (d.el, d.ec) <= ln.pos[t.comment.0 as usize] {
+                        st.must_before_comment += 1;
+                    }
+                }
                 Verdict::DontCare => dont = true,
                 Verdict::NoEffect => {
                     // nearest candidate explanation if it turns out to be missing
@@ -588,6 +679,118 @@ fn search_one(ws: &mut Ws, text: &str, st: &mut Stats, out: &mut Vec<Value>) {
             report("new-diagnostic", format!("{} at {}:{}-{}:{} appears {} time(s) only when the suppression comments are present", d.code, d.sl, d.sc, d.el, d.ec, n1));
         }
     }
+}
+
+// ------------------------------------------------------------------------------- probe: variants and shrinking
+
+fn split_lines(text: &str) -> Vec<String> {
+    let mut v = Vec::new();
+    let mut cur = String::new();
+    let cs: Vec<char> = text.chars().collect();
+    let mut i = 0;
+    while i < cs.len() {
+        cur.push(cs[i]);
+        if cs[i] == '\n' || (cs[i] == '\r' && cs.get(i + 1) != Some(&'\n')) {
+            v.push(std::mem::take(&mut cur));
+        }
+        i += 1;
+    }
+    if !cur.is_empty() {
+        v.push(cur);
+    }
+    v
+}
+
+fn violations_of(ws: &mut Ws, text: &str) -> Vec<Value> {
+    let mut out = Vec::new();
+    let mut st = Stats::default();
+    search_one(ws, text, &mut st, &mut out);
+    out
+}
+
+/// the program itself, then variants with probe statements (four diagnostic codes on one line) inserted before
+/// every line at once and before each single line
+fn variants(text: &str) -> Vec<String> {
+    let lines = split_lines(text);
+    let probe = |i: usize| format!("zz{i}(); dep(); need2(1); local zu{i} = 1\n");
+    let mut v = vec![text.to_string()];
+    let mut all = String::new();
+    for (i, l) in lines.iter().enumerate() {
+        all.push_str(&probe(i));
+        all.push_str(l);
+    }
+    if !all.ends_with('\n') && !all.ends_with('\r') {
+        all.push('\n');
+    }
+    all.push_str(&probe(lines.len()));
+    v.push(all);
+    for i in 0..=lines.len().min(60) {
+        let mut s = String::new();
+        for (j, l) in lines.iter().enumerate() {
+            if j == i {
+                s.push_str(&probe(i));
+            }
+            s.push_str(l);
+        }
+        if i == lines.len() {
+            if !s.ends_with('\n') && !s.ends_with('\r') {
+                s.push('\n');
+            }
+            s.push_str(&probe(i));
+        }
+        v.push(s);
+    }
+    v
+}
+
+/// greedy chunk removal (halving chunk sizes) keeping a violation with the same signature
+fn shrink(ws: &mut Ws, text: &str, sig: &str) -> String {
+    let mut lines = split_lines(text);
+    let mut budget = 400usize;
+    let mut chunk = (lines.len() / 2).max(1);
+    loop {
+        let mut i = 0;
+        let mut progressed = false;
+        while i < lines.len() && budget > 0 {
+            let end = (i + chunk).min(lines.len());
+            let cand: String = lines[..i].iter().chain(lines[end..].iter()).cloned().collect();
+            budget -= 1;
+            if violations_of(ws, &cand).iter().any(|v| v["signature"] == sig) {
+                lines.drain(i..end);
+                progressed = true;
+            } else {
+                i += chunk;
+            }
+        }
+        if budget == 0 || (chunk == 1 && !progressed) {
+            break;
+        }
+        if !progressed || chunk > 1 {
+            chunk = (chunk / 2).max(1);
+        }
+    }
+    lines.concat()
+}
+
+/// used when the correspondence disagrees on a program: look for a property violation on it or near it
+fn probe(ws: &mut Ws, text: &str) -> Vec<Value> {
+    for (k, cand) in variants(text).into_iter().enumerate() {
+        let vs = violations_of(ws, &cand);
+        if let Some(first) = vs.first() {
+            let sig = first["signature"].as_str().unwrap_or("").to_string();
+            let small = shrink(ws, &cand, &sig);
+            let mut out: Vec<Value> = violations_of(ws, &small).into_iter().filter(|v| v["signature"] == sig.as_str()).collect();
+            for v in out.iter_mut() {
+                v["derived_from"] = json!(if k == 0 { "the disagreeing program, shrunk" } else { "a probe-statement variant of the disagreeing program, shrunk" });
+                v["original"] = json!(text);
+            }
+            if !out.is_empty() {
+                return out;
+            }
+            return vs;
+        }
+    }
+    Vec::new()
 }
 
 // --------------------------------------------------------------------------------------- correspondence
@@ -782,9 +985,9 @@ fn main() {
                 "{}",
                 json!({"summary": {"cases": cases, "analysed": st.programs, "distinct_nontrivial": distinct.len(), "corpus": nfixed,
                     "tags": {"disable": st.tags[0], "disable-next-line": st.tags[1], "disable-line": st.tags[2], "enable": st.tags[3], "other": st.tags[4],
-                             "without_code_list": st.tags_no_list, "several_codes": st.tags_multi_code, "disable_in_nested_block": st.nested_block_tags,
+                             "without_code_list": st.tags_no_list, "several_codes": st.tags_multi_code, "disable_in_nested_block": st.nested_block_tags, "programs_line_level_then_later_disable": st.line_then_disable,
                              "multi_line_comment": st.multi_line_comments},
-                    "diagnostics_without_comments": st.diags, "demanded_suppressed": st.must, "demanded_unaffected": st.no_effect, "undecided_by_property": st.dont_care,
+                    "diagnostics_without_comments": st.diags, "demanded_suppressed": st.must, "demanded_suppressed_before_its_disable_comment": st.must_before_comment, "demanded_unaffected": st.no_effect, "undecided_by_property": st.dont_care,
                     "column0_on_first_line_after_scope": st.col0_after_scope, "empty_range_diagnostics": st.empty_range_diags,
                     "eol": {"lf": st.eol[0], "crlf": st.eol[1], "cr": st.eol[2], "mixed": st.eol[3]}, "by_code": st.by_code}})
             );
@@ -799,8 +1002,14 @@ fn main() {
                 println!("{}", v);
             }
         }
+        "probe" => {
+            let t: String = serde_json::from_str(&args.str("text-json", "\"\"")).unwrap_or_default();
+            for v in probe(&mut ws, &t) {
+                println!("{}", v);
+            }
+        }
         _ => {
-            eprintln!("usage: c19 corr|search|one");
+            eprintln!("usage: c19 corr|search|one|probe");
             std::process::exit(2);
         }
     }
